@@ -776,7 +776,7 @@ def _bound(tier, skipped):
 def _run(task, phases, name):
     tier = task.get('tier', 'quick')
     _, skipped = formats()
-    rep = Report(name, task, rule=RULE, bound=_bound(tier, skipped))
+    rep = Report(name, task, rule=RULE + ' Added: worlds of 5-6 Frames with one label written without its index (per-label exporter options differ from the default); X: one Frame loaded, then ONE selection mixing it with unloaded labels (longer than max_persist, loaded label at every position, both orders), then every label again; M also replaces the file by one with an OLDER modification time.', bound=_bound(tier, skipped))
     rep.assumptions.update(f'format {s} not installed: skipped' for s in skipped)
     with tempfile.TemporaryDirectory(dir=os.environ.get('VERIF_SCRATCH', '/var/tmp'), prefix='a7c17_') as tmp:
         worlds = Worlds(tmp)
